@@ -72,6 +72,38 @@ CLAIMED['C14'] = dict(
     ref='4 C14',
     note='values called through the namespace are assumed not to raise '
          'DTReturn themselves')
+CLAIMED['C09'] = dict(
+    technique='path-sensitive interpretation of the condition loop '
+              '(evaluation count, store-before-body, reachability after a '
+              'true branch); tuple-shape agreement compiler vs interpreter',
+    text='Partial: in the conditional interpreter every iteration path '
+         'evaluates its condition exactly once, a rendered body is followed '
+         'by loop exit on every path, the else body is unreachable after a '
+         'true branch; a named condition is cached (fresh per-conditional '
+         'dict, pushed before the loop, popped in finally) before its body '
+         'renders; the KeyError guard covers only the lookup and re-raises '
+         'foreign keys; the tuples built by if/unless/else/call have the '
+         'shape the interpreter reads; opcodes agree. Not decided: '
+         'truthiness of user values, what user callables do.',
+    ref='4 C09, App. B',
+    note='anchors located semantically in render_blocks_ (push of a local '
+         'dict followed by try/while)')
+CLAIMED['C02'] = dict(
+    technique='forward dataflow of push precedence classes over all paths; '
+              'guard dominance; constant-argument and resolved-callee '
+              'queries; direction agreement; C08 engine',
+    text='Partial: on every path of the template call the namespace sources '
+         'are pushed in the documented precedence order and all six are '
+         'pushed, the client path in the given order; keyword defaults beat '
+         'the construction mapping and underscore names are filtered; '
+         'expressions fetch names with auto-call off, md[name] with it on, '
+         'auto-calls are guarded by the flag, templates are rendered with '
+         'the current namespace, uncalled fetches occur only at reviewed '
+         'sites; push/lookup/pop agree on the stack end; block bindings are '
+         'popped on every normal exit. Not decided: values of lookups, the '
+         '63-combination table.',
+    ref='4 C02, App. B',
+    note='precedence classes by origin of the pushed expression')
 PENDING = {}
 NA = {
     'C16': 'numerical identities over run-time data (sums, means, n vs n-1, '
